@@ -36,29 +36,30 @@ type ModTarget struct {
 	E      *Expr
 	Elts   bool // x[*]: the elements of slice x
 	All    bool
+	Fresh  bool     // anything allocated since the function was entered
 	Except []string // with All: heap key prefixes that are left untouched
 	Key    string   // raw heap key (e.g. for ghost vars)
 }
 
 type FuncContract struct {
-	Pkg      string // package name of the file the contract was read from
-	Key      string // canonical short function name
-	Props    []string
-	Requires []Clause
-	Ensures  []Clause
-	Modifies []ModTarget // nil: unspecified
-	HasMod   bool
-	Loops    map[int]*LoopSpec
-	Asserts  []PointAssert
-	Trusted  bool
-	Inline   bool
-	GhostSets []GhostSet     // ghost assignments performed on entry (specification state updated by this function)
-	Calls    []string        // parameters holding functions the callee may invoke: their write sets are added at call sites
-	Reveal   map[string]bool // opaque spec functions unfolded while verifying this function
-	NoPanic  bool            // claim: no reachable panic instruction / bounds failure
-	Safety   bool            // generate bounds/nil/div obligations
-	File     string
-	Line     int
+	Pkg       string // package name of the file the contract was read from
+	Key       string // canonical short function name
+	Props     []string
+	Requires  []Clause
+	Ensures   []Clause
+	Modifies  []ModTarget // nil: unspecified
+	HasMod    bool
+	Loops     map[int]*LoopSpec
+	Asserts   []PointAssert
+	Trusted   bool
+	Inline    bool
+	GhostSets []GhostSet      // ghost assignments performed on entry (specification state updated by this function)
+	Calls     []string        // parameters holding functions the callee may invoke: their write sets are added at call sites
+	Reveal    map[string]bool // opaque spec functions unfolded while verifying this function
+	NoPanic   bool            // claim: no reachable panic instruction / bounds failure
+	Safety    bool            // generate bounds/nil/div obligations
+	File      string
+	Line      int
 }
 
 type GhostSet struct {
@@ -431,6 +432,8 @@ func parseModTargets(text string) ([]ModTarget, error) {
 		part = strings.TrimSpace(part)
 		switch {
 		case part == "nothing" || part == "":
+		case part == "fresh":
+			out = append(out, ModTarget{Text: part, Fresh: true})
 		case part == "*":
 			out = append(out, ModTarget{Text: part, All: true})
 		case strings.HasPrefix(part, "* except "):
